@@ -132,7 +132,7 @@ Proof.
   apply N.ltb_ge. exact H9.
 Qed.
 
-(* the same over any table that holds a forest (e.g. after adjust_zero_pages changed the pages) *)
+(* (4') the same over any table that holds a forest (e.g. after adjust_zero_pages changed the pages) *)
 Theorem C17_reads_back_forest :
   forall b f cid rid cat fuel fuel2,
     bookmarks b = map iid f -> f <> [] ->
@@ -215,6 +215,27 @@ Theorem C17_too_deep_witness :
   get_toc 1000 deep_final = TErr.
 Proof. exact deep_witness. Qed.
 
+(* zero-page parents.  PARTIAL: the general statement "adjust_zero_pages turns a table holding f into
+   a table holding map fix_tree f" (Spec/OutlineSpec.v: a parent with object number 0 and children
+   takes the page of its first child that has one, after the same adjustment) is not proved; it is
+   checked on every generated case by the harness against an independent eff_page oracle.  What is
+   proved: (4') above holds for ANY table holding a forest, so also for the adjusted one; and on
+   the concrete forest A(0,0)[B(0,0)[b], C], D(0,7)[E] the model computes exactly [fix_tree] and the
+   adjusted forest reads back with the fixed-up page numbers. *)
+Theorem C17_adjust_zero_pages_example :
+  let b := add_all (fresh_bdoc ex_doc) zero_ops in
+  adjust_zero_pages (default_fuel b) b = OOk zero_adjusted /\
+  (forall i p, In (i, p) (flat_map tree_pages (map fix_tree zero_forest)) <->
+               exists bm, tbl_get (bookmark_table zero_adjusted) i = Some bm /\ bm_page bm = p) /\
+  flat_map tree_pages (map fix_tree zero_forest) = [(1, (4, 0)); (2, (4, 0)); (4, (4, 0)); (3, (3, 0)); (5, (3, 0)); (6, (3, 0))] /\
+  bookmarks zero_adjusted = bookmarks b /\
+  (exists b', build_outline (default_fuel zero_adjusted) zero_adjusted = OOk (Some (5, 0), b') /\
+              attach (base b') (1, 0) (5, 0) = zero_final) /\
+  get_toc 6 zero_final = TOk (expected_toc zero_final (map fix_tree zero_forest)) 0 /\
+  map te_page (expected_toc zero_final (map fix_tree zero_forest)) = [2; 2; 2; 1; 1; 1] /\
+  map te_level (expected_toc zero_final (map fix_tree zero_forest)) = [1; 2; 3; 2; 1; 2].
+Proof. exact zero_example. Qed.
+
 (* no root bookmark: nothing is built, the document is unchanged *)
 Theorem C17_no_bookmark :
   forall fuel b, bookmarks b = [] -> build_outline fuel b = OOk (None, b).
@@ -250,5 +271,6 @@ Print Assumptions C17_reads_back_forest.
 Print Assumptions C17_reads_back_after_reload.
 Print Assumptions C17_pages_after_reload.
 Print Assumptions C17_too_deep_witness.
+Print Assumptions C17_adjust_zero_pages_example.
 Print Assumptions C17_no_bookmark.
 Print Assumptions C17_example.
